@@ -1,52 +1,38 @@
 (* Properties/C12.v — parsing hostile message bytes never crashes.
-   The full statement is REFUTED on this tree (three classes, each with a witness that was also run on the real code);
-   it is PROVED for every input outside these classes. Model: C11/Model.v; classes: C12/Spec.v. *)
+   Proved at full strength for every byte string and context endianness, on the tree repaired by the fix: commits e5b4d5a2
+   (length checks in from_raw_parts) and b3fdf920 (header name fields validated at parse time).  Model: C11/Model.v. *)
 From ZV Require Import Base.Bytes Base.Res Base.Sig C10.Model C11.Model C12.Spec C12.Proofs.
 Open Scope N_scope.
 
-(* the full statement, kept visible: for every byte string and context endianness, creating the message does not panic,
-   and if it succeeds no accessor (header incl. every field, body, Display, Debug, body deserialization) panics *)
-Definition C12_full : Prop :=
-  forall (ctx : endian) (b : bytes),
-    (forall p, from_raw_parts ctx b <> Panic p) /\
-    (forall m, from_raw_parts ctx b = Ok m ->
-       (forall p, header m <> Panic p) /\ (forall p, body m <> Panic p) /\ (forall p, display m <> Panic p) /\
-       (forall p, debug_ok m <> Panic p) /\ (forall p, body_deser m <> Panic p)).
-
-Theorem C12_full_is_the_statement : C12_full <-> C12_full_statement.
-Proof. reflexivity. Qed.
-
-Theorem C12_empty_input_refuted : exists ctx p, from_raw_parts ctx [] = Panic p.
-Proof. exact empty_refuted. Qed.
-Print Assumptions C12_empty_input_refuted.
-
-Theorem C12_short_body_refuted : exists ctx b m p, from_raw_parts ctx b = Ok m /\ body m = Panic p.
-Proof. exact short_body_refuted. Qed.
-Print Assumptions C12_short_body_refuted.
-
-Theorem C12_invalid_name_refuted : exists ctx b m p, from_raw_parts ctx b = Ok m /\ header m = Panic p.
-Proof. exact invalid_name_refuted. Qed.
-Print Assumptions C12_invalid_name_refuted.
-
-Theorem C12_full_refuted : ~ C12_full_statement.
-Proof. exact full_refuted. Qed.
-Print Assumptions C12_full_refuted.
-
-(* everything else: outside the three classes (no input at all; input ending before the 8-aligned body offset; a cached
-   header string that is not a valid name of its kind) nothing panics — no slice, index, UTF-8, unwrap or assert fires *)
-Theorem C12_partial : forall (ctx : endian) (b : bytes), Known_C12 ctx b = false ->
+(* creating the message does not panic; if it succeeds, no accessor (header incl. every field, body, Display, Debug, body
+   deserialization) panics *)
+Theorem C12_nopanic : forall (ctx : endian) (b : bytes),
   (forall p, from_raw_parts ctx b <> Panic p) /\
   (forall m, from_raw_parts ctx b = Ok m ->
      (forall p, header m <> Panic p) /\ (forall p, body m <> Panic p) /\ (forall p, display m <> Panic p) /\
      (forall p, debug_ok m <> Panic p) /\ (forall p, body_deser m <> Panic p)).
-Proof. exact partial. Qed.
-Print Assumptions C12_partial.
+Proof. exact nopanic. Qed.
+Print Assumptions C12_nopanic.
 
-(* the loop bound of the model is never the reason for an outcome *)
+(* the loop and nesting bounds of the model are never the reason for an outcome *)
 Theorem C12_no_fuel_artifact : forall (ctx : endian) (b : bytes), from_raw_parts ctx b <> Err EFuel.
 Proof. exact no_fuel. Qed.
 Print Assumptions C12_no_fuel_artifact.
 
-(* non-vacuity of the partial theorem *)
-Example C12_example : Known_C12 LE ex_msg = false /\ exists m, from_raw_parts LE ex_msg = Ok m.
-Proof. exact ex_not_known. Qed.
+(* what an accepted message guarantees (the facts the accessors rely on) *)
+Theorem C12_accepted_invariant : forall (ctx : endian) (b : bytes) (m : msg), from_raw_parts ctx b = Ok m ->
+  m_bytes m = b /\ m_body_offset m <= len b /\ exists h bd, header m = Ok h /\ body m = Ok bd.
+Proof.
+  intros ctx b m H. destruct (from_raw_parts_ok ctx b m H) as (Hb & Ho & _).
+  destruct (header_ok ctx b m H) as (h & Hh). destruct (body_ok ctx b m H) as (bd & Hbd). eauto 6.
+Qed.
+Print Assumptions C12_accepted_invariant.
+
+(* regression: the three inputs that used to crash (known_findings/C12.jsonl, now "fixed") are rejected *)
+Example C12_former_witnesses :
+  (exists e, from_raw_parts LE [] = Err e) /\ (exists e, from_raw_parts LE wit_short = Err e) /\ (exists e, from_raw_parts LE wit_name = Err e).
+Proof. exact former_witnesses_rejected. Qed.
+
+(* non-vacuity: an accepted message *)
+Example C12_example : exists m h bd, from_raw_parts LE ex_msg = Ok m /\ header m = Ok h /\ body m = Ok bd.
+Proof. exact ex_accepted. Qed.
